@@ -303,6 +303,23 @@ async fn run(cases: &str, out: &str, workdir: &str, args: &[String]) {
             }
             let _ = store.procs().delete(&pid);
         }
+        // a panic on an engine task (tokio swallows it) or work that never drained: report it in the case, and
+        // give the rest of the shard a fresh engine (the scheduler loop of this one may be gone)
+        let problems = crate::util::take_problems();
+        if !problems.is_empty() {
+            let mut seen = std::collections::BTreeSet::new();
+            for p in problems {
+                if seen.insert(p.clone()) {
+                    writeln!(w, "case {cid}: {p}").unwrap();
+                }
+            }
+            engine.close();
+            tokio::task::yield_now().await;
+            let _ = crate::util::take_problems();
+            crate::util::force_idle();
+            engine = build(cfgp.clone()).await;
+            ex = engine.executor();
+        }
     }
     w.flush().unwrap();
     engine.close();
